@@ -9,7 +9,7 @@ import subprocess
 import sys
 
 V = os.path.dirname(os.path.dirname(os.path.abspath(__file__)))
-OVERRIDE_CHECK = {'C17-1': ['C17', 'C06']}      # seeds that are (also) caught by another property's check
+OVERRIDE_CHECK = {'C17-1': ['C17', 'C06'], 'C12-7': ['C12', 'C14']}      # seeds that are (also) caught by another property's check
 # seeds that stopped being valid seeds when a genuine defect was repaired in /repo (kept for the record, with what happened)
 OBSOLETE = {
     'C07-2': 'after the F3 repair (459ec04) 8 pinned tests fail with this change: it no longer satisfies "passes the existing tests"; the C07 check exits 1 on it as well',
